@@ -1,4 +1,4 @@
-From Tetl Require Import Lib.Base Lib.Arr C06a.Model C06a.Instances C01.Model C01.Spec C01.ModelExt C01.SpecExt C01.ModelIt C01.SpecIt C01.ModelEl C01.SpecEl C01.ModelArg C01.SpecArg.
+From Tetl Require Import Lib.Base Lib.Arr C06a.Model C06a.Instances C01.Model C01.Spec C01.ModelExt C01.SpecExt C01.ModelIt C01.SpecIt C01.ModelEl C01.SpecEl C01.ModelArg C01.SpecArg C01.ModelMv C01.SpecMv.
 Require Extraction.
 Require Import ExtrOcamlBasic.
 Extraction Language OCaml.
@@ -6,4 +6,5 @@ Extraction "C01_model.ml" wire_anchor run iv_run spec_run iv_spec_step spec_obse
   xrun st_run iv_xrun xspec_run st_spec_run iv_xspec_run xrun_fast iv_xrun_fast
   yrun yrun_fast yspec_run st_yrun st_yspec_run
   zrun zrun_fast zspec_run st_zrun st_zspec_run elt_total elt_keytag mv_keep mv_const
-  wrun wrun_fast wspec_run st_wrun st_wspec_run iv_wrun iv_wrun_fast iv_wspec_run arg_int arg_ll arg_dbl arg_vi arg_il.
+  wrun wrun_fast wspec_run st_wrun st_wspec_run iv_wrun iv_wrun_fast iv_wspec_run arg_int arg_ll arg_dbl arg_vi arg_il
+  vrun vrun_fast vspec_run st_vrun st_vspec_run iv_vrun iv_vrun_fast iv_vspec_run ivt_trivial ivt_class.
